@@ -6,7 +6,7 @@ Obj(id, type, ver, name) == [id |-> id, type |-> type, ver |-> ver, name |-> nam
 \* ids are type * 10 + k; types: 1 attack-pattern, 2 campaign (2.1), 3 file (2.1 observable, no versions), 4 identity, 5 indicator (2.0),
 \* 6 malware, 7 relationship, 8 threat-actor, 9 an unregistered custom type (kept as a dictionary by the stores).
 \* versions: v = 10 a + b + 1 stands for base + a half-seconds + b * 100 microseconds (so 1, 2 differ below the millisecond, 1, 11 by half a second)
-MCUniverse == { Obj(21, 2, 1, 1), Obj(21, 2, 2, 2), Obj(21, 2, 11, 1), Obj(51, 5, 1, 1), Obj(31, 3, 0, 1), Obj(91, 9, 1, 2), Obj(91, 9, 11, 1) }
+MCUniverse == { Obj(21, 2, 1, 1), Obj(21, 2, 2, 2), Obj(21, 2, 11, 1), [Obj(51, 5, 1, 1) EXCEPT !.labels = <<1>>], Obj(31, 3, 0, 1), Obj(91, 9, 1, 2), Obj(91, 9, 11, 1) }
 MCForms == {"object", "list"}
 F(p, op, v) == [prop |-> p, op |-> op, val |-> v]
 MCFilters == { F("type", "=", 2), F("type", "!=", 2), F("type", "in", {2, 3}), F("id", "=", 21), F("modified", ">", 1), F("modified", "<=", 2), F("type", ">=", 5),
